@@ -146,3 +146,44 @@ def tpl2(ctx: Ctx):
             ctx.ob(rule, mk.qual, f"[user {un}, password {pn}, host {hn}, port {on}] printed again", text2 == text,
                    f"make_netloc gives {text!r}; parsed and printed again it is {text2!r}: the canonical string is not a fixed point",
                    where(mk, mk.node), sample=f"{text!r} stable")
+
+
+def acc_pq(ctx: Ctx):
+    """ACC-PQ: `raw_path_qs` is `raw_path` followed by '?' + the raw query when there is one - for every class of (authority,
+    path, query) the accessors branch on. It is the request-target the raw accessors are re-composed into; an accessor that
+    applies its own empty-path rule ('/' without the authority condition) names a path the URL does not have."""
+    model = ctx.model
+    rule = "ACC-PQ"
+    ctx.rule(rule, floor=8, what="raw_path_qs == raw_path + ('?' + raw_query_string if any), over all (authority, path, query) classes")
+    S = ("param", "self")
+    fp, fq = model.func("_url.URL.raw_path"), model.func("_url.URL.raw_path_qs")
+    rp, rq = analyze(model, fp, merge=False), analyze(model, fq, merge=False)
+    ctx.functions.update([fp.qual, fq.qual])
+
+    def fold_accessor(fi, r, leaves):
+        f = Folder(model, leaves)
+        hits = []
+        for s, v, _n in r.returns:
+            try:
+                if all(bool(f.fold(k)) == fv for k, fv in s.facts.items()):
+                    hits.append(f.fold(v))
+            except CannotFold as e:
+                raise AnalysisError(f"{fi.qual}: not a function of the stored authority / path / query classes ({e}) (unknown idiom)")
+        if len(set(hits)) != 1:
+            raise AnalysisError(f"{fi.qual}: {len(set(hits))} feasible results for one class of parts (unknown idiom)")
+        return hits[0]
+
+    for nn, nv in NETLOCS.items():
+        for pn, pv in (("empty", ""), ("rooted", "/p"), ("rootless", "p")):
+            if nv and pv and not pv.startswith("/"):
+                continue
+            for qn, qv in QUERIES.items():
+                leaves = {("attr", S, "_netloc"): nv, ("attr", S, "_path"): pv, ("attr", S, "_query"): qv}
+                path = fold_accessor(fp, rp, leaves)
+                leaves.update({("attr", S, "raw_path"): path, ("attr", S, "raw_query_string"): qv})
+                got = fold_accessor(fq, rq, leaves)
+                want = path + ("?" + qv if qv else "")
+                ctx.instance(rule)
+                ctx.ob(rule, fq.qual, f"[authority {nn}, path {pn}, query {qn}]", got == want,
+                       f"raw_path_qs is {got!r} where raw_path is {path!r} and the raw query {qv!r}: the accessors do not re-compose "
+                       f"(expected {want!r})", where(fq, fq.node), sample=repr(want))
